@@ -28,17 +28,11 @@ TECHNIQUE = 'guarded symbolic values (forward dataflow) + must-hold branch facts
 def run(ctx):
     G = ctx.G
     u, f = ctx.fn('cctz::TimeZoneInfo::MakeTime')
-    ub = [x for x in walk(f) if x.get('kind') == 'CallExpr' and callee(x) and callee(x)[0] == 'fn' and
-          callee(x)[1].get('name') in ('upper_bound', 'lower_bound')]
-    sv0 = SymVal(ctx, f)
-    base = None
-    if len(ub) == 1:
-        a0 = single(sv0.value_ast(call_args(ub[0])[0]) or ())
-        if a0 is not None and a0[0] == 'ptr':
-            base = a0[1]
-    if base is None:
+    from ..symval import seeded_search
+    ss = seeded_search(ctx, f)
+    if ss is None:
         raise AnalysisBroken('C02-case: the table search of MakeTime was not found')
-    sv = SymVal(ctx, f, seed_calls=[(ub[0], ('ptr', base, {'U': 1}))])
+    sv, base, ubcall, _hf = ss
     g = sv.cfg
     ps = params_of(f)
     csk = '%s#%s' % (ps[0]['name'], ps[0]['id'])
@@ -192,6 +186,9 @@ def _fields(ctx, u, f):
         name = l.get('name')
         if name not in ('kind', 'pre', 'trans', 'post'):
             return
+        record_value(name, rhs, node)
+
+    def record_value(name, rhs, node):
         r = peel(rhs)
         while r is not None and r.get('kind') in ('CXXConstructExpr', 'MaterializeTemporaryExpr', 'CXXBindTemporaryExpr', 'ExprWithCleanups') \
                 and len([a for a in kids(r) if a.get('kind') != 'CXXDefaultArgExpr']) == 1:
@@ -224,6 +221,38 @@ def _fields(ctx, u, f):
                 while peel(rhs).get('kind') == 'CXXOperatorCallExpr' and callee(peel(rhs)) and callee(peel(rhs))[1].get('name') == 'operator=':
                     rhs = call_args(peel(rhs))[1]
                 record(args[0], rhs, n)
+    if not out:
+        # the fields may be filled in by a file-local builder the function hands its values to
+        from ..callgraph import fkey as _fkey
+        rets = [x for x in walk(f) if x.get('kind') == 'ReturnStmt' and kids(x)]
+        for r in rets:
+            call = None
+            for x in walk(r):
+                if x.get('kind') == 'CallExpr' and callee(x) and callee(x)[0] == 'fn' and callee(x)[1].get('_qn'):
+                    call = x
+                    break
+            if call is None:
+                continue
+            for (uu, hf) in ctx.scope(f)[1:]:
+                if _fkey(hf) not in ctx.G.resolve_decl(callee(call)[1]):
+                    continue
+                inner = _fields(ctx, uu, hf)
+                hps = ['%s#%s' % (p.get('name'), p.get('id')) for p in params_of(hf)]
+                nodes = g.nodes_for(call)
+                for fld, val in inner.items():
+                    keyname = val if isinstance(val, str) else (list(val)[0] if isinstance(val, dict) and len(val) == 1 and list(val.values()) == [1] else None)
+                    if keyname in hps and nodes:
+                        arg = call_args(call)[hps.index(keyname)]
+                        tmp = {}
+                        saved = dict(out)
+                        out.clear()
+                        # evaluate the argument as if it were assigned to the field here
+                        fake = {'kind': 'MemberExpr', 'name': fld}
+                        record_value(fld, arg, nodes[0])
+                        tmp = dict(out)
+                        out.clear()
+                        out.update(saved)
+                        out.update(tmp)
     return out
 
 
